@@ -118,6 +118,20 @@ def fldCs (n : Nat) : Nat := n % 6000
 /-- Python's `int % 8640000` (result in `[0, 8640000)`), the wrap of `dec2hms` -/
 def hmsWrap (k : Int) : Nat := (k % 8640000).toNat
 
+/-- hand copy of the regenerated wrap (Python's `%` with a positive modulus is the floor-mod) -/
+def hmsWrapZHand (k : Int) : Int := Int.fmod k 8640000
+
+/-- hand copies of the quantities the formatters round: `abs(float(x)) * 360000`, `float(x) * 24000` -/
+def dmsScaledHand {α : Type} [R α] (x : α) : α := R.abs x * R.ofNat 360000
+def hmsScaledHand {α : Type} [R α] (x : α) : α := x * R.ofNat 24000
+
+/-- Python's `int(round(y))` for a finite double (round half to even) -/
+def pyRound (y : Float) : Int :=
+  let f := Float.floor y
+  let d := y - f
+  let fi : Int := if f < 0 then -(((Float.toUInt64 (-f)).toNat : Nat) : Int) else (((Float.toUInt64 f).toNat : Nat) : Int)
+  if d < 0.5 then fi else if d > 0.5 then fi + 1 else (if fi % 2 == 0 then fi else fi + 1)
+
 /-! Strings are built and taken apart as `List Char`, with small structural recursions, so that
     `parse (format n) = n` can be proved at the character level (Aegean/Proofs/C17String.lean). -/
 
@@ -140,6 +154,21 @@ def hmsChars (h m cs : Nat) : List Char := pad2L h ++ ':' :: (pad2L m ++ ':' :: 
 
 def dmsString (neg : Bool) (d m cs : Nat) : String := String.ofList (dmsChars neg d m cs)
 def hmsString (h m cs : Nat) : String := String.ofList (hmsChars h m cs)
+
+/-! ### Glue: the whole of `dec2dms` / `dec2hms`, assembled from the regenerated pieces (passed as parameters)
+
+`scaled` is the quantity that is rounded, `fHi fM fCs` the field arithmetic, `wrap` the RA wrap.  The hand-written
+parts are exactly: the non-finite guard, `int(round(·))`, the sign test `x < 0`, and the format string. -/
+
+def dec2dmsGlue (scaled : Float → Float) (fHi fM fCs : Nat → Nat) (x : Float) : String :=
+  if x.isNaN || x.isInf then "XX:XX:XX.XX" else
+    let n := (pyRound (scaled x)).toNat
+    dmsString (x < 0) (fHi n) (fM n) (fCs n)
+
+def dec2hmsGlue (scaled : Float → Float) (wrap : Int → Int) (fHi fM fCs : Nat → Nat) (x : Float) : String :=
+  if x.isNaN || x.isInf then "XX:XX:XX.XX" else
+    let n := (wrap (pyRound (scaled x))).toNat
+    hmsString (fHi n) (fM n) (fCs n)
 
 /-! ### Sexagesimal parsing (`dec2dec`, `ra2dec`) -/
 
